@@ -9,6 +9,7 @@ import sys
 import tempfile
 
 IDP_ID = 'https://idp.example.org/idp.xml'
+IDP_B_ID = 'https://idp-b.example.net/idp.xml'
 SP_ID = 'https://sp.example.org/sp.xml'
 SSO, ACS = 'https://idp.example.org/sso', 'https://sp.example.org/acs/post'
 PAIRS = {'idp': ('test.key', 'test.pem'), 'sp': ('test_1.key', 'test_1.crt'), 'other': ('test_2.key', 'test_2.crt')}
@@ -55,13 +56,19 @@ class Env(object):
             return conf
         self.idp_md = str(entity_descriptor(IdPConfig().load(idp_conf({}), metadata_construction=True)))
         self.sp_md = str(entity_descriptor(SPConfig().load(sp_conf({}, 'sp', False, False), metadata_construction=True)))
+        # a second identity provider the SPs also know from metadata, with another key pair ('other')
+        conf_b = idp_conf({})
+        conf_b.update({'entityid': IDP_B_ID, 'key_file': os.path.join(keys, PAIRS['other'][0]), 'cert_file': os.path.join(keys, PAIRS['other'][1])})
+        conf_b['service']['idp']['endpoints'] = {'single_sign_on_service': [('https://idp-b.example.net/sso', BINDING_HTTP_REDIRECT)]}
+        self.idp_b_md = str(entity_descriptor(IdPConfig().load(conf_b, metadata_construction=True)))
         self.idp = Server(config=IdPConfig().load(idp_conf({'inline': [self.sp_md]})))
         self._sps = {}
 
-        def sp_for(pair, want_resp, want_ass, **extra):
-            k = (pair, want_resp, want_ass, tuple(sorted(extra.items())))
+        def sp_for(pair, want_resp, want_ass, instance=None, **extra):
+            # instance: any value; a different one gives a different SP object with the same configuration
+            k = (pair, want_resp, want_ass, instance, tuple(sorted(extra.items())))
             if k not in self._sps:
-                self._sps[k] = Saml2Client(config=SPConfig().load(sp_conf({'inline': [self.idp_md]}, pair, want_resp, want_ass, extra)))
+                self._sps[k] = Saml2Client(config=SPConfig().load(sp_conf({'inline': [self.idp_md, self.idp_b_md]}, pair, want_resp, want_ass, extra)))
             return self._sps[k]
         self.sp_for = sp_for
         self.POST = BINDING_HTTP_POST
